@@ -66,6 +66,9 @@ def allowed_upper_bound(doc) -> int:
     return bound * perms
 
 
+_TIMEOUTS = [0]
+
+
 def outputs_of(jp, env, q, doc, cap, late_flag=False):
     from .. import impl  # noqa: PLC0415
 
@@ -80,13 +83,21 @@ def outputs_of(jp, env, q, doc, cap, late_flag=False):
         impl._sibling_first(jp, env, q)
         c = env.compile(q)
 
-    def one():
+    def go():
         try:
             return tuple(tuple(n.location) for n in c.find(doc))
         except Exception as err:  # noqa: BLE001
             return ("raised", type(err).__name__)
 
-    results, complete, runs = chooser.explore(jp, one, cap=cap)
+    def one():
+        # an evaluation that does not finish is reported as ("raised", "timeout") and ends the exploration of this case
+        timed_out, res = impl.with_timeout(20.0 if _TIMEOUTS[0] < 2 else 3.0, go)
+        if timed_out:
+            _TIMEOUTS[0] += 1
+            return ("raised", "did not finish within the time limit")
+        return res
+
+    results, complete, runs = chooser.explore(jp, one, cap=cap, stop=lambda r: r == ("raised", "did not finish within the time limit"))
     return results, complete, runs
 
 
